@@ -89,6 +89,9 @@ def main():
             mp = os.path.join(dst, 'meta.json')
             if os.path.exists(mp):
                 old = json.load(open(mp))
+            # the property the change was written against stays on record; 'checked_with' is the check that was run
+            meta['checked_with'] = prop
+            meta['property'] = old.get('property') or prop
             readme = open(os.path.join(dst, 'README.md')).read() if os.path.exists(os.path.join(dst, 'README.md')) else ''
             meta['needs'] = old.get('needs') or readme.strip().replace('\n', ' ')[:400]
             meta['what_was_run'] = ['patch -p1 on a scratch copy of /repo', 'pytest tests (scratch copy)', 'demo.py on scratch copy and on /repo',
